@@ -50,9 +50,12 @@ void a_str_swap(a_str *lhs, a_str *rhs)
 
 char *a_str_exit(a_str *ctx)
 {
-    char *const str = ctx->ptr_;
+    char *str = ctx->ptr_;
     if (ctx->ptr_)
     {
+        /* the non-terminating appends can fill the block completely: make room for the terminator */
+        if (ctx->num_ >= ctx->mem_ && a_str_setm_(ctx, ctx->num_ + 1)) { return A_NULL; }
+        str = ctx->ptr_;
         ctx->ptr_[ctx->num_] = 0;
         ctx->ptr_ = A_NULL;
     }
